@@ -17,11 +17,16 @@ func (fft FilterFloat1Transformer) Transform(m modeling.Mesh) (results modeling.
 		return
 	}
 
+	if err = RequireTopology(m, modeling.PointTopology); err != nil {
+		return
+	}
+
 	return FilterFloat1(m, fft.Attribute, fft.Filter), nil
 }
 
 func FilterFloat1(m modeling.Mesh, attribute string, filter func(v float64) bool) modeling.Mesh {
 	check(RequireV1Attribute(m, attribute))
+	check(RequireTopology(m, modeling.PointTopology))
 
 	vertices := m.Float1Attribute(attribute)
 	verticeToKeep := make(map[int]struct{}, 0)
@@ -55,11 +60,16 @@ func (fft FilterFloat2Transformer) Transform(m modeling.Mesh) (results modeling.
 		return
 	}
 
+	if err = RequireTopology(m, modeling.PointTopology); err != nil {
+		return
+	}
+
 	return FilterFloat2(m, fft.Attribute, fft.Filter), nil
 }
 
 func FilterFloat2(m modeling.Mesh, attribute string, filter func(v vector2.Float64) bool) modeling.Mesh {
 	check(RequireV2Attribute(m, attribute))
+	check(RequireTopology(m, modeling.PointTopology))
 
 	vertices := m.Float2Attribute(attribute)
 	verticeToKeep := make(map[int]struct{}, 0)
@@ -93,11 +103,16 @@ func (fft FilterFloat3Transformer) Transform(m modeling.Mesh) (results modeling.
 		return
 	}
 
+	if err = RequireTopology(m, modeling.PointTopology); err != nil {
+		return
+	}
+
 	return FilterFloat3(m, fft.Attribute, fft.Filter), nil
 }
 
 func FilterFloat3(m modeling.Mesh, attribute string, filter func(v vector3.Float64) bool) modeling.Mesh {
 	check(RequireV3Attribute(m, attribute))
+	check(RequireTopology(m, modeling.PointTopology))
 
 	vertices := m.Float3Attribute(attribute)
 	verticeToKeep := make([]bool, vertices.Len())
@@ -131,11 +146,16 @@ func (fft FilterFloat4Transformer) Transform(m modeling.Mesh) (results modeling.
 		return
 	}
 
+	if err = RequireTopology(m, modeling.PointTopology); err != nil {
+		return
+	}
+
 	return FilterFloat4(m, fft.Attribute, fft.Filter), nil
 }
 
 func FilterFloat4(m modeling.Mesh, attribute string, filter func(v vector4.Float64) bool) modeling.Mesh {
 	check(RequireV4Attribute(m, attribute))
+	check(RequireTopology(m, modeling.PointTopology))
 
 	vertices := m.Float4Attribute(attribute)
 	verticeToKeep := make(map[int]struct{}, 0)
